@@ -156,6 +156,58 @@ func init() {
 var wsRunes = []rune{0x9, 0xA, 0xB, 0xC, 0xD, 0x20, 0xA0, 0x1680, 0x180E, 0x2000, 0x2001, 0x2005, 0x200A, 0x2028, 0x2029, 0x202F, 0x205F, 0x3000, 0xFEFF}
 var nonWsRunes = []rune{0x85, 0x200B, 0x200C, 0x2060, 0x0, 0x1F, 0x7F, 0x2800}
 
+// every ES5 WhiteSpace / LineTerminator code point (Unicode Zs as of ES5.1, U+180E included, plus U+FEFF)
+var es5WsAll = []rune{0x9, 0xA, 0xB, 0xC, 0xD, 0x20, 0xA0, 0x1680, 0x180E, 0x2000, 0x2001, 0x2002, 0x2003, 0x2004, 0x2005, 0x2006,
+	0x2007, 0x2008, 0x2009, 0x200A, 0x2028, 0x2029, 0x202F, 0x205F, 0x3000, 0xFEFF}
+
+// code points that are NOT ES5 white space: Go's unicode.IsSpace extra (U+0085), and neighbours / look-alikes
+var notEs5Ws = []rune{0x85, 0x1C, 0x1D, 0x1E, 0x1F, 0x8, 0xE, 0x0, 0x7F, 0x200B, 0x200C, 0x200D, 0x200E, 0x2060, 0x2800, 0x3164, 0x180B, 0x180D, 0x180F,
+	0x1FFF, 0x200F, 0x2027, 0x202A, 0x202E, 0x2030, 0x205E, 0x2060, 0x2FFF, 0x3001, 0xFEFE, 0xFFFE, 0xFFFD, 0xA1, 0x9F, 0x1681, 0x167F}
+
+// wsEdgeRequests: every edge code point x (leading, trailing, both, mixed with ordinary white space) around
+// a few numeric texts, for Number(s), parseFloat(s) and parseInt(s)
+func wsEdgeRequests(c *h.Ctx) {
+	bodies := []string{"1", "-12.5", "0x1F", "Infinity", "", "7e1"}
+	all := append(append([]rune{}, es5WsAll...), notEs5Ws...)
+	for _, x := range all {
+		xs := string(x)
+		for _, b := range bodies {
+			for _, s := range []string{xs + b, b + xs, xs + b + xs, " " + xs + b, xs + " " + b, b + xs + " ", b + " " + xs, "\t" + xs + "\n" + b + "\r" + xs + " ", xs + xs + b + xs + xs} {
+				tok := h.BytesTok(s)
+				c.Add("num "+tok, "ws:num")
+				c.Add("pfloat "+tok, "ws:pfloat")
+				c.Add("pint "+tok+" u", "ws:pint")
+				c.Add("pint "+tok+" "+argTok(16), "ws:pint")
+			}
+		}
+	}
+	// mixed runs of several edge code points
+	r := c.Rng
+	for i := 0; i < c.N(1500, 60000); i++ {
+		mk := func() string {
+			var sb strings.Builder
+			for n := r.Intn(4); n > 0; n-- {
+				if r.Intn(3) == 0 {
+					sb.WriteRune(notEs5Ws[r.Intn(len(notEs5Ws))])
+				} else {
+					sb.WriteRune(es5WsAll[r.Intn(len(es5WsAll))])
+				}
+			}
+			return sb.String()
+		}
+		s := mk() + bodies[r.Intn(len(bodies))] + mk()
+		tok := h.BytesTok(s)
+		switch r.Intn(3) {
+		case 0:
+			c.Add("num "+tok, "ws:num")
+		case 1:
+			c.Add("pfloat "+tok, "ws:pfloat")
+		default:
+			c.Add("pint "+tok+" "+radixArgs[r.Intn(len(radixArgs))], "ws:pint")
+		}
+	}
+}
+
 func digitsStr(r *h.Rng, n int) string {
 	var b strings.Builder
 	for i := 0; i < n; i++ {
@@ -608,6 +660,12 @@ func genStream(c *h.Ctx) {
 	}
 
 	// --- text -> number
+	wsEdgeRequests(c)
+	for _, m := range []string{"toString", "toLocaleString", "valueOf", "toFixed", "toExponential", "toPrecision"} {
+		for k := range thisExprs {
+			c.Add("nthis "+m+" "+k, "nthis")
+		}
+	}
 	for _, s := range fixedStrings {
 		c.Add("num "+h.BytesTok(s), "num:fixed")
 		c.Add("pfloat "+h.BytesTok(s), "pfloat:fixed")
@@ -629,6 +687,52 @@ func genStream(c *h.Ctx) {
 	}
 	for i := 0; i < c.N(9000, 700000); i++ {
 		c.Add("lit "+h.BytesTok(genLiteral(r, ds)), "lit")
+	}
+	// String(<literal>) and String(parseInt(..)): integers around 2^53 .. 2^64 in every base
+	for _, s := range litFixed {
+		c.Add("litstr "+h.BytesTok(s), "litstr:fixed")
+	}
+	for _, s := range parseIntFixed {
+		c.Add("pintstr "+h.BytesTok(s)+" u", "pintstr:fixed")
+	}
+	for i := 0; i < c.N(4000, 300000); i++ {
+		var n uint64
+		switch r.Intn(4) {
+		case 0:
+			n = 1<<53 + uint64(r.Intn(4096)) - 2048
+		case 1:
+			n = r.U64() >> uint(r.Intn(12))
+		case 2:
+			n = uint64(1)<<uint(53+r.Intn(11)) + uint64(r.Intn(9)) - 4
+		default:
+			n = uint64(r.Intn(1000000))
+		}
+		base := []int{10, 16, 8}[r.Intn(3)]
+		lit := strconv.FormatUint(n, base)
+		switch base {
+		case 16:
+			lit = "0x" + lit
+		case 8:
+			lit = "0" + lit
+		}
+		if r.Bool() {
+			c.Add("litstr "+h.BytesTok(lit), "litstr")
+		} else {
+			ps := strconv.FormatUint(n, 10)
+			a := "u"
+			if r.Intn(3) == 0 {
+				rad := 2 + r.Intn(35)
+				ps = strconv.FormatUint(n, rad)
+				a = argTok(float64(rad))
+			}
+			if r.Intn(3) == 0 {
+				ps = "-" + ps
+			}
+			c.Add("pintstr "+h.BytesTok(ps)+" "+a, "pintstr")
+		}
+	}
+	for i := 0; i < c.N(1500, 100000); i++ {
+		c.Add("litstr "+h.BytesTok(genLiteral(r, ds)), "litstr:any")
 	}
 	// ToString of integer-kinded number Values
 	for _, n := range []int64{0, 1, -1, 10, 1 << 53, 1<<53 + 1, 1<<53 - 1, -(1<<53 + 1), 9007199254740993, math.MaxInt64, math.MinInt64, 1 << 62, 1000000000000000000, 999999999999999999, 123456789012345678} {
